@@ -88,3 +88,8 @@ CLAIMS["C20"] = (
     "Generated two-sheet point clouds (planar/tilted/curved, lattice/random, noisy normals, mixed labelling) are measured and the result is checked to be a one-to-one, admissible, maximal, greedy-consistent matching with correct thicknesses; the candidate kernel must report exactly the admissible sets. Held on everything explored.",
     "Margin filter 1e-9 at the distance and cone thresholds; < 25 candidates per source; CUDA twin not executable here.",
 )
+CLAIMS["C17"] = (
+    "grammar-based property test: generated mdoc texts / loader files / wedge-list inputs written by the harness, results compared with the generated instance; mdoc round trip and op histories (sort, remove) against a list model; written STAR/EM files parsed independently",
+    "Generated mdoc grammars (small/large decimals, negatives, multi-token text, unsorted tilts) with sort/remove histories and write/re-read; tilt, dose, mdoc-dose, gctf and ctffind4 loaders against the numbers in harness-written files; STOPGAP and EM wedge lists for 1..5 tomograms with per-tomogram dimensions/z-shifts/defocus/dose against a per-row model. Held on everything explored.",
+    "mdoc values without '='; distinct tilt angles; ascending tilt files for wedge lists; float32 tolerance for float32 loaders.",
+)
